@@ -65,6 +65,22 @@ def register(cat):
 
     bad("S.elementwise_shape", "S", lambda c, r: gen_binop(c, r, ("S", "T")), run_sbin, not_broadcastable, known=None)
 
+    def gen_s_times_k(c, r):
+        # a Kruskal tensor of the same order whose modes are at least as long as the sparse tensor's (so that reading
+        # its factor rows at the stored subscripts "works"), but not of the same shape
+        sh = shp(c.obj(r))
+        ksh = list(sh)
+        for d in c.g.sample(range(len(sh)), c.g.randint(1, len(sh))):
+            ksh[d] += c.g.randint(1, 2)
+        rk = c.g.randint(1, 2)
+        return {"operands": [r] + [c.fresh(np.asfortranarray(rand_array(c.g, (s, rk)))) for s in ksh], "side": c.g.choice(["S*K", "K*S"])}
+
+    def run_s_times_k(eng, ops, st):
+        K = ttb.ktensor(list(ops[1:]))
+        return ops[0] * K if st["side"] == "S*K" else K * ops[0]
+
+    bad("S.times_ktensor_shape", "S", gen_s_times_k, run_s_times_k, lambda ops, st: tuple(o.shape[0] for o in ops[1:]) != tuple(shp(ops[0])))
+
     def gen_kadd(c, r):
         o = other_shape(c, "K", shp(c.obj(r)))
         return None if o is None else {"operands": [r, o], "which": c.g.choice(["add", "sub"])}
@@ -78,8 +94,18 @@ def register(cat):
     # ------------------------------------------------------------------ permutations
     def gen_perm(c, r):
         n = c.obj(r).ndims
-        kind = c.g.choice(["repeat", "short", "long", "oor"])
-        if kind == "repeat":
+        kind = c.g.choice(["repeat", "short", "long", "oor"] + ([] if c.heap.kinds[r] == "T" else ["negative", "all_ones"]))
+        if kind == "negative":
+            # (the dense class follows numpy and reads -1 as the last mode; the other classes document 0..N-1 only)
+            p = list(range(n))
+            c.g.shuffle(p)
+            j = c.g.randrange(n)
+            p[j] = p[j] - n
+        elif kind == "all_ones":
+            if n < 2:
+                return None
+            p = [1] * n
+        elif kind == "repeat":
             if n < 2:
                 return None
             p = list(range(n))
